@@ -650,6 +650,10 @@ func losesNestedType(v cty.Value, ct *TS) bool {
 	if v.IsNull() {
 		return ct.HasDyn()
 	}
+	if !v.IsKnown() {
+		// (msgpack only) an unknown value carries no members either
+		return ct.HasDyn()
+	}
 	t := v.Type()
 	switch {
 	case t.IsListType() || t.IsSetType() || t.IsMapType():
